@@ -251,9 +251,20 @@ func init() {
 				}})
 			// responses refuse requests of the wrong kind; echo session+system of the right one
 			reqKinds := []string{"select.req", "select.rsp", "deselect.req", "deselect.rsp", "linktest.req", "linktest.rsp", "reject.req", "separate.req",
-				"raw:select.req", "raw:deselect.req", "raw:linktest.req", "data message", "undefined:ptype1", "undefined:stype0", "undefined:stype8", "undefined:stype255"}
+				"raw:select.req", "raw:deselect.req", "raw:linktest.req", "decoded:select.req", "decoded:deselect.req", "decoded:linktest.req", "data message", "undefined:ptype1", "undefined:stype0", "undefined:stype8", "undefined:stype255"}
 			mkReq := func(k string, sid uint16, sys []byte) ast.HSMSMessage {
 				switch k {
+				case "decoded:select.req", "decoded:deselect.req", "decoded:linktest.req":
+					// a request as the decoder returns it
+					st := map[string]byte{"decoded:select.req": 1, "decoded:deselect.req": 3, "decoded:linktest.req": 5}[k]
+					if k == "decoded:linktest.req" {
+						sid = 0xFFFF
+					}
+					d, ok := hsms.Parse([]byte{0, 0, 0, 10, byte(sid >> 8), byte(sid), 0, 0, 0, st, sys[0], sys[1], sys[2], sys[3]})
+					if !ok {
+						panic("decoder refused a well-formed control message")
+					}
+					return d
 				case "raw:select.req", "raw:deselect.req", "raw:linktest.req":
 					// a request as it may arrive from the wire: bytes 2,3 not zero
 					st := map[string]byte{"raw:select.req": 1, "raw:deselect.req": 3, "raw:linktest.req": 5}[k]
@@ -284,20 +295,37 @@ func init() {
 					sys := [][]byte{{0, 0, 0, 0}, {0xFF, 0xFF, 0xFF, 0xFF}, {1, 2, 3, 4}, {0x80, 0x7F, 0, 0xFF}, {0xDE, 0xAD, 0xBE, 0xEF}}[d[3]]
 					rk, k := reqKinds[d[0]], rsps[d[1]]
 					req := mkReq(rk, sids[d[2]], sys)
-					var m ast.HSMSMessage
-					p := catch(func() {
-						switch k {
-						case "select.rsp":
-							m = ast.NewHSMSMessageSelectRsp(req, 0x42)
-						case "deselect.rsp":
-							m = ast.NewHSMSMessageDeselectRsp(req, 0x42)
-						default:
-							m = ast.NewHSMSMessageLinktestRsp(req)
-						}
-					})
+					reqBytes, reqType := append([]byte{}, req.ToBytes()...), req.Type()
+					answer := func() (m ast.HSMSMessage, p interface{}) {
+						p = catch(func() {
+							switch k {
+							case "select.rsp":
+								m = ast.NewHSMSMessageSelectRsp(req, 0x42)
+							case "deselect.rsp":
+								m = ast.NewHSMSMessageDeselectRsp(req, 0x42)
+							default:
+								m = ast.NewHSMSMessageLinktestRsp(req)
+							}
+						})
+						return
+					}
+					m, p := answer()
 					c.Ops(2)
 					in := fmt.Sprintf("%s(<%s session=%d system=%x>)", k, rk, sids[d[2]], sys)
-					match := strings.TrimPrefix(rk, "raw:") == k[:len(k)-3]+"req"
+					// the constructor is a function of the request: the request it was given still is the message it was (it
+					// reports the same type, encodes to the same bytes), and answering it a second time gives the same verdict
+					// and an equal response
+					if !bytes.Equal(req.ToBytes(), reqBytes) || req.Type() != reqType {
+						c.Fail("request-changed-by-answering", in, fmt.Sprintf("the request was %s %x, after the constructor call it is %s %x", reqType, reqBytes, req.Type(), req.ToBytes()))
+					}
+					m2, p2 := answer()
+					c.Ops(1)
+					if (p == nil) != (p2 == nil) {
+						c.Fail("second-answer-differs", in, fmt.Sprintf("first call: %v; second call on the same request: %v", p, p2))
+					} else if p == nil && !bytes.Equal(m.ToBytes(), m2.ToBytes()) {
+						c.Fail("second-answer-differs", in, fmt.Sprintf("first response %x, second response to the same request %x", m.ToBytes(), m2.ToBytes()))
+					}
+					match := strings.TrimPrefix(strings.TrimPrefix(rk, "raw:"), "decoded:") == k[:len(k)-3]+"req"
 					if !match {
 						if p == nil {
 							c.Fail("rsp-accepts-wrong-request", in, fmt.Sprintf("built %x from a request of the wrong kind", m.ToBytes()))
